@@ -137,4 +137,7 @@ def _step(st, s, v: Visitor):
         return res
     if isinstance(st, ast.With):
         return walk(st.body, v.stmt(st, s), v)
-    return [("fall", v.stmt(st, s), st)]
+    r = v.stmt(st, s)
+    if isinstance(r, list):  # a visitor may fork (state, kind) pairs: [(kind, state)]
+        return [(k, s2, st) for k, s2 in r]
+    return [("fall", r, st)]
